@@ -580,8 +580,30 @@ def check_nm_shrink(ctx: Ctx):
         perm = [ast.unparse(x) for x in loops_[0].body[i_ + 1 : i_ + 3]]
         uncond = perm == ["simplex = [simplex[i] for i in order]", "values = [values[i] for i in order]"] and not any("values[0]" in ast.unparse(x) or "simplex[0]" in ast.unparse(x) for x in loops_[0].body[:i_])
     ctx.ob("C19-O3", "R6 INCUMBENT", nm, "the simplex is re-sorted unconditionally at the top of every iteration (index 0 is the best vertex whenever it is read or shrunk towards)", uncond, "a sort that is skipped leaves a better vertex at an inner index after a shrink; the next shrink contracts towards the stale simplex[0] and overwrites the best point evaluated so far", node=srt[0] if srt else nm.node)
-    ok = "best_idx = min(range(n + 1), key=lambda i: values[i])" in t
-    ctx.ob("C19-O3", "R6 INCUMBENT", nm, "the returned vertex is the one with the smallest value among all kept vertices", ok, "", node=nm.node)
+    # every Result site - the normal exit and the stop requested by the progress callback - publishes the vertex that
+    # min() selects over the values as they are at that moment: the index is bound in the site's own block, after the
+    # last statement that writes a vertex or a value (ledger row 61: the callback exit returned simplex[0] of a simplex
+    # whose worst vertex had just been replaced by a better point than the first one)
+    sites_ = result_sites(nm)
+    ctx.floor("Result sites in nelder_mead", len(sites_), 2)
+    for k_, s_ in enumerate(sites_):
+        blk = _enclosing_block(nm.node, s_.node.ast if hasattr(s_.node, "ast") else s_.call)
+        ret = next((x for x in blk if any(y is s_.call for y in ast.walk(x))), None)
+        ok, why = False, "the solution is not `simplex[<index chosen by min over values>]`"
+        if ret is not None:
+            i_ = blk.index(ret)
+            sol = s_.arg("solution")
+            defs_ = {ast.unparse(x.targets[0]): x for x in blk[:i_] if isinstance(x, ast.Assign) and len(x.targets) == 1}
+            if isinstance(sol, ast.Name) and sol.id in defs_:
+                sol = defs_[sol.id].value
+            if isinstance(sol, ast.Subscript) and ast.unparse(sol.value) == "simplex" and isinstance(sol.slice, ast.Name) and sol.slice.id in defs_:
+                d_ = defs_[sol.slice.id]
+                j_ = blk.index(d_)
+                between = blk[j_ + 1 : i_]
+                dirty = [x for x in between for y in ast.walk(x) if (isinstance(y, ast.Subscript) and isinstance(y.ctx, ast.Store) and ast.unparse(y.value).split("[")[0] in ("simplex", "values")) or (isinstance(y, ast.Call) and ast.unparse(y.func) == "_shrink") or (isinstance(y, ast.Name) and isinstance(y.ctx, ast.Store) and y.id in ("simplex", "values"))]
+                ok = ast.unparse(d_.value) == "min(range(n + 1), key=lambda i: values[i])" and not dirty
+                why = f"index `{ast.unparse(d_)}`" + ("; a vertex or value is written between the selection and the return" if dirty else "")
+        ctx.ob("C19-O3", "R6 INCUMBENT", nm, f"Result#{k_}: the returned vertex is the one with the smallest value among all kept vertices at that moment", ok, why + ": index 0 is the best vertex only right after the sort at the top of an iteration; the iteration's own replacement can be better", node=s_.call)
     # every replacement of the worst vertex stores the evaluated point with its value, adjacent
     cfg = cfg_of(nm.node)
     reps = [n for n in own_nodes(nm.node) if isinstance(n, ast.Assign) and ast.unparse(n.targets[0]) == "simplex[n]"]
@@ -605,7 +627,6 @@ def check_nm_shrink(ctx: Ctx):
                 t_ = ast.unparse(n.test)
                 ok = t_ in (f"{a_}_val < {b_}_val", f"{a_}_val <= {b_}_val", f"{b_}_val > {a_}_val", f"{b_}_val >= {a_}_val")
                 ctx.ob("C19-O3", "R6 INCUMBENT", nm, f"choice between the evaluated candidates `{a_}` and `{b_}` keeps the better one", ok, f"test `{t_}`: comparing with anything else can discard the better of the two evaluated points", node=n)
-    ctx.note("nelder_mead: a stop requested by the progress callback returns simplex[0] of a simplex that was not re-sorted after this iteration's replacement (pair consistent, but possibly not the best vertex); progress callbacks are not in the property's quantifier - information only")
 
 
 def run(ctx: Ctx):
@@ -838,7 +859,30 @@ def _v_nm_lazy_sort(tree):
     loop.body[k[0] : k[0] + 3] = [guard]
 
 
+def _v_nm_callback_returns_first(tree):
+    g = M.find_func(tree, "nelder_mead")
+    loop = [x for x in ast.walk(g) if isinstance(x, ast.For) and "max_iter" in ast.unparse(x.iter)][0]
+    stop = [x for x in loop.body if isinstance(x, ast.If) and "report_progress" in ast.unparse(x.test)]
+    if not stop:
+        raise M.Skip("progress stop not found")
+    stop[0].body = M.stmts("return Result(simplex[0], evaluate.to_user(values[0]), iteration, evaluate.evals, Status.FEASIBLE)")
+
+
+def _v_nm_select_then_shrink(tree):
+    g = M.find_func(tree, "nelder_mead")
+    loop = [x for x in ast.walk(g) if isinstance(x, ast.For) and "max_iter" in ast.unparse(x.iter)][0]
+    stop = [x for x in loop.body if isinstance(x, ast.If) and "report_progress" in ast.unparse(x.test)]
+    if not stop:
+        raise M.Skip("progress stop not found")
+    sel = [i for i, x in enumerate(stop[0].body) if isinstance(x, ast.Assign) and M.src_is(x.targets[0], "best_idx")]
+    if not sel:
+        raise M.Skip("selection not found")
+    stop[0].body.insert(sel[0] + 1, M.stmts("_shrink(simplex, values, sigma, evaluate)")[0])
+
+
 VARIANTS = [
+    M.Variant("nelder_mead stopped by the callback returns simplex[0] (original defect, ledger row 61)", NM, _v_nm_callback_returns_first, "C19-O3"),
+    M.Variant("nelder_mead shrinks once more between choosing the vertex and returning it", NM, _v_nm_select_then_shrink, "C19-O3"),
     M.Variant("nelder_mead re-sorts only when the worst vertex moved up (seed C19-O)", NM, _v_nm_lazy_sort, "C19-O3"),
     M.Variant("alns adapts the caller's weight list in place (seed C19-I)", LN, _v_alns_weights_aliased, "C19-O5"),
     M.Variant("exponential_cooling returns a schedule that remembers its temperature between runs (seed C19-M)", AN, _v_stateful_cooling_schedule, "C19-G3"),
